@@ -4,6 +4,7 @@
     integerIter{n, i}:  MoveNext: if i+1 >= n {false} else {i++; true};  Current: Key = i          (start i = -1)
     stringIter{str, idx, next, cur}: MoveNext: if next >= len {false} else decode at next, idx = next, next += w
     sliceIter{slice, idx}: MoveNext: idx++; idx < len(slice);  Current: (idx, slice[idx])     (live element read)
+  Slices: `sliceIter_eq_range` for every length, memory and loop body (`drainSlice` / `rangeSlice`).
   Maps and channels: the runtime's own iteration is a parameter (see `wrapIter`).
 -/
 import GoCo.Iters.Utf8
@@ -132,6 +133,168 @@ theorem drain_str_from (bs : List Nat) (fuel : Nat) :
 theorem strIter_eq_range (bs : List Nat) : drain strIter bs.length (newStrIter bs) = rangeStr bs := by
   have := drain_str_from bs bs.length 0 0 0 (by omega)
   simpa [newStrIter, rangeStr] using this
+
+/-! ### slices: length snapshot, live element reads, a loop body that mutates memory between advances
+
+  `seq.sliceIter{slice, idx}` copies the slice *header*: the backing array stays shared with the program,
+  the length is the one at creation.  `M` is the program's memory, `read m i` the element `i` of the
+  backing array the header points to (`none`: outside it), `body j` what the loop body does to memory
+  in iteration `j` (element writes, appends in place or reallocating, reslicing of the program's own
+  slice variable - anything).  `none` in an output position is Go's index-out-of-range panic. -/
+
+structure SliceSt where
+  len : Nat      -- len(s.slice), fixed at NewSliceIter
+  idx : Int      -- starts at -1
+deriving Repr
+
+/-- `s.idx++; return s.idx < len(s.slice)` -/
+def sliceMoveNext (s : SliceSt) : Bool × SliceSt :=
+  let s' := { s with idx := s.idx + 1 }
+  (decide (s'.idx < (s.len : Int)), s')
+
+/-- `pair{Key: s.idx, Val: s.slice[s.idx]}`: bounds-checked against the header, read live -/
+def sliceCurrent {M V : Type} (read : M → Nat → Option V) (s : SliceSt) (m : M) : Option (Nat × V) :=
+  if 0 ≤ s.idx ∧ s.idx < (s.len : Int) then (read m s.idx.toNat).map (fun v => (s.idx.toNat, v)) else none
+
+def newSliceIter (n : Nat) : SliceSt := ⟨n, -1⟩
+
+/-- the lowered loop `for it.MoveNext() { k, v := it.Current(); body }` over a slice iterator -/
+def drainSlice {M V : Type} (read : M → Nat → Option V) (body : Nat → M → M) :
+    Nat → SliceSt → M → List (Option (Nat × V))
+  | 0, _, _ => []
+  | fuel+1, s, m =>
+    match sliceMoveNext s with
+    | (false, _) => []
+    | (true, s') => sliceCurrent read s' m :: drainSlice read body fuel s' (body s'.idx.toNat m)
+
+/-- Go: `for i, v := range sl` evaluates `sl` once (`n` = its length then), runs exactly `n` iterations and
+    reads element `i` of that backing array at the start of iteration `i` -/
+def rangeSliceFrom {M V : Type} (read : M → Nat → Option V) (body : Nat → M → M) :
+    Nat → Nat → M → List (Option (Nat × V))
+  | 0, _, _ => []
+  | k+1, i, m => (read m i).map (fun v => (i, v)) :: rangeSliceFrom read body k (i+1) (body i m)
+
+def rangeSlice {M V : Type} (read : M → Nat → Option V) (body : Nat → M → M) (n : Nat) (m : M) :=
+  rangeSliceFrom read body n 0 m
+
+theorem drainSlice_from {M V : Type} (read : M → Nat → Option V) (body : Nat → M → M) (n : Nat) :
+    ∀ (k i : Nat) (m : M), i + k = n →
+      drainSlice read body (k+1) ⟨n, (i : Int) - 1⟩ m = rangeSliceFrom read body k i m := by
+  intro k
+  induction k with
+  | zero =>
+    intro i m h
+    have hi : ¬ ((i : Int) - 1 + 1 < (n : Int)) := by omega
+    simp only [drainSlice, sliceMoveNext, rangeSliceFrom, hi, decide_false]
+  | succ k ih =>
+    intro i m h
+    have hi : ((i : Int) - 1 + 1 < (n : Int)) := by omega
+    have e1 : (i : Int) - 1 + 1 = (i : Int) := by omega
+    have e2 : ((i : Int)).toNat = i := by omega
+    have hc : (0 : Int) ≤ (i : Int) ∧ (i : Int) < (n : Int) := by omega
+    have ih' := ih (i+1) (body i m) (by omega)
+    have e3 : (((i + 1 : Nat) : Int) - 1) = (i : Int) := by omega
+    rw [e3] at ih'
+    rw [drainSlice]
+    simp only [sliceMoveNext, decide_true, e1, rangeSliceFrom, sliceCurrent, hc, and_self, if_true, e2]
+    rw [ih']
+
+/-- the slice iterator under the lowered loop = Go's range over the slice, for every length, every memory
+    and every loop body -/
+theorem sliceIter_eq_range {M V : Type} (read : M → Nat → Option V) (body : Nat → M → M) (n : Nat) (m : M) :
+    drainSlice read body (n+1) (newSliceIter n) m = rangeSlice read body n m := by
+  have h := drainSlice_from read body n n 0 m (by omega)
+  simpa [newSliceIter, rangeSlice] using h
+
+/-- exactly `n` iterations, whatever the body does to the program's slice variable (append, truncate) -/
+theorem rangeSliceFrom_length {M V : Type} (read : M → Nat → Option V) (body : Nat → M → M) :
+    ∀ (k i : Nat) (m : M), (rangeSliceFrom read body k i m).length = k := by
+  intro k; induction k with
+  | zero => intro i m; rfl
+  | succ k ih => intro i m; simp only [rangeSliceFrom, List.length_cons, ih]
+
+/-- once exhausted, the slice iterator stays exhausted -/
+theorem slice_exhaustion_permanent (s : SliceSt) (h : (s.len : Int) ≤ s.idx) :
+    (sliceMoveNext s).1 = false ∧ ((sliceMoveNext s).2.len : Int) ≤ (sliceMoveNext s).2.idx := by
+  simp only [sliceMoveNext, decide_eq_false_iff_not]; omega
+
+/-- no out-of-range read as long as the backing array is at least as long as the header says and the
+    body keeps `read` defined there (a Go array never shrinks) -/
+theorem rangeSliceFrom_no_panic {M V : Type} (read : M → Nat → Option V) (body : Nat → M → M) (n : Nat)
+    (Inv : M → Prop) (hread : ∀ m i, Inv m → i < n → (read m i).isSome) (hbody : ∀ j m, Inv m → Inv (body j m)) :
+    ∀ (k i : Nat) (m : M), i + k = n → Inv m → ∀ x ∈ rangeSliceFrom read body k i m, x.isSome := by
+  intro k; induction k with
+  | zero => intro i m _ _ x hx; simp [rangeSliceFrom] at hx
+  | succ k ih =>
+    intro i m h hm x hx
+    simp only [rangeSliceFrom, List.mem_cons] at hx
+    rcases hx with rfl | hx
+    · have := hread m i hm (by omega)
+      cases hr : read m i with
+      | none => simp [hr] at this
+      | some v => simp
+    · exact ih (i+1) (body i m) (by omega) (hbody i m hm) x hx
+
+/-! #### the mutation scripts of correspondence K3 as a memory: the iterator's backing array, the program's
+    own slice variable (length, whether it still points to that array) -/
+
+structure ScriptMem where
+  arr : List Nat      -- the backing array the iterator's header points to (length = cap at creation)
+  ulen : Nat          -- len of the program's slice variable
+  shared : Bool       -- the program's variable still points to `arr`
+deriving Repr
+
+inductive ScriptOp
+  | set (k v : Nat)
+  | append (v : Nat)
+  | truncate (k : Nat)
+deriving Repr
+
+def ScriptMem.apply (m : ScriptMem) : ScriptOp → ScriptMem
+  | .set k v => if k < m.ulen ∧ m.shared then { m with arr := m.arr.set k v } else m
+  | .append v =>
+    if m.shared then
+      if m.ulen < m.arr.length then { m with arr := m.arr.set m.ulen v, ulen := m.ulen + 1 }
+      else { m with shared := false, ulen := m.ulen + 1 }    -- reallocation: the program moves to a copy
+    else { m with ulen := m.ulen + 1 }
+  | .truncate k => if k ≤ m.ulen then { m with ulen := k } else m
+
+def scriptBody (ops : List (Nat × ScriptOp)) (j : Nat) (m : ScriptMem) : ScriptMem :=
+  (ops.filter (fun o => o.1 == j)).foldl (fun m o => m.apply o.2) m
+
+def scriptRead (m : ScriptMem) (i : Nat) : Option Nat := m.arr[i]?
+
+def mkScriptMem (init : List Nat) (cap : Nat) : ScriptMem :=
+  ⟨init ++ List.replicate (cap - init.length) 0, init.length, true⟩
+
+theorem ScriptMem.apply_length (m : ScriptMem) (o : ScriptOp) : (m.apply o).arr.length = m.arr.length := by
+  cases o with
+  | set k v => simp only [ScriptMem.apply]; split <;> simp
+  | append v =>
+    simp only [ScriptMem.apply]
+    split
+    · split <;> simp
+    · simp
+  | truncate k => simp only [ScriptMem.apply]; split <;> simp
+
+theorem scriptBody_length (ops : List (Nat × ScriptOp)) (j : Nat) (m : ScriptMem) :
+    (scriptBody ops j m).arr.length = m.arr.length := by
+  unfold scriptBody
+  generalize ops.filter (fun o => o.1 == j) = l
+  induction l generalizing m with
+  | nil => rfl
+  | cons o l ih => simp only [List.foldl_cons]; rw [ih, ScriptMem.apply_length]
+
+/-- under every mutation script the iterator delivers what native range delivers, and nothing panics -/
+theorem script_no_panic (ops : List (Nat × ScriptOp)) (init : List Nat) (cap : Nat) :
+    ∀ x ∈ rangeSlice scriptRead (scriptBody ops) init.length (mkScriptMem init cap), x.isSome := by
+  apply rangeSliceFrom_no_panic scriptRead (scriptBody ops) init.length (fun m => init.length ≤ m.arr.length)
+  · intro m i hm hi
+    have : i < m.arr.length := by omega
+    simp [scriptRead, this]
+  · intro j m hm; rw [scriptBody_length]; exact hm
+  · omega
+  · simp [mkScriptMem]
 
 /-! ### maps and channels: the Go runtime's own iteration is a parameter -/
 
